@@ -26,6 +26,36 @@ CHECKS = {
         technique="TLA+ state machine + observation-vector oracle, TLC-generated behaviours replayed into the real builders",
         engine="tlc+vh",
     ),
+    "C02": dict(
+        category="model_checking",
+        text="DagCbor.tla states the canonical encoding Enc(v), the encoded length EncLen(v) (separate arithmetic) and a "
+             "byte-level strict decoder, all written from the DAG-CBOR specification. TLC evaluates them over an "
+             "exhaustively enumerated bounded value domain (every value an initial state), checks Dec(Enc(v)) = "
+             "Sorted(v), |Enc(v)| = EncLen(v) and order independence on the specification, and emits (value, bytes, "
+             "sorted value) per value; the harness builds each value under every permutation of map insertion order in "
+             "basicnode (Any and kind-specific), bindnode and a foreign node implementation and compares "
+             "dagcbor.Encode byte-for-byte, EncodedLength, the registered multicodec encoder, and the decoded node.",
+        design_ref="DESIGN.md section 4, C02",
+        note="Bounded domain (CborValues.tla); float bit patterns opaque; NaN/Inf and undefined CIDs are outside the quantifier; "
+             "trusted: TLC, harness/model.",
+        technique="TLA+ transcription of the canonical form evaluated by TLC over a bounded domain, one implementation test per value x insertion order x node implementation",
+        engine="tlc+vh",
+    ),
+    "C03": dict(
+        category="model_checking",
+        text="DagCbor.tla contains the strict DAG-CBOR decoder as a byte-at-a-time state machine written from the "
+             "specification (labelled rejections, the three documented tolerances as recorded flags). TLC explores it with "
+             "the environment choosing every next byte (all short strings over a representative alphabet, also after "
+             "scripted prefixes) and on every byte-level mutant of canonical encodings, checks on the specification that "
+             "acceptance implies the consumed bytes are exactly the encoding of the value built (modulo tolerances), and "
+             "emits (input, verdict) pairs; the harness feeds each input to dagcbor.Decode (strict, and relaxed for the "
+             "promises relaxed mode keeps) and compares accept/reject and, on accept, the node read back.",
+        design_ref="DESIGN.md section 4, C03",
+        note="Bounded input length / mutation depth; rejection labels are compared only as accept-vs-reject; "
+             "behaviour inside polydawn/refmt is judged through dagcbor's API; trusted: TLC, harness/model.",
+        technique="TLA+ byte-level decoder state machine explored by TLC; every explored input replayed into the real decoder",
+        engine="tlc+vh",
+    ),
     "C12": dict(
         category="model_checking",
         text="Assembler.tla is the builder/assembler protocol as a state machine (one action per public call, the two "
